@@ -132,6 +132,9 @@ fn main() {
     if args.is_empty() {
         usage();
     }
+    if args[0] == "--yens-server" {
+        rcv::searchrun::yens_server_main();
+    }
     if args[0] == "--worker" || args[0] == "--worker-replay" {
         let code = worker_main(&args);
         let _ = std::io::stdout().flush();
